@@ -59,6 +59,7 @@ func runOne(id int, raw []byte, timeout time.Duration) O {
 	}
 	s := &expect.Session{Interpreters: core.InterpretersMap{"ecmascript": ecmascript.NewInterpreter()}, DefaultTimeout: timeout}
 	timing := false
+	lineNo := 0
 	for _, st := range ss.Steps {
 		iop := expect.IO{Timeout: timeout}
 		if st.Long != nil {
@@ -81,7 +82,12 @@ func runOne(id int, raw []byte, timeout time.Duration) O {
 				iop.Inputs = append(iop.Inputs, string(js))
 			} else {
 				js, _ := json.Marshal(enc.D(l))
-				iop.Inputs = append(iop.Inputs, string(js))
+				line := string(js)
+				// (a JSON message is one whatever white space it starts with: every third line is indented)
+				if lineNo++; lineNo%3 == 0 {
+					line = []string{" ", "\t", "  "}[lineNo%3+(lineNo/3)%3%2] + line
+				}
+				iop.Inputs = append(iop.Inputs, line)
 			}
 		}
 		for _, o := range st.Outs {
